@@ -356,6 +356,11 @@ func c15Scenarios(tier string) []*Scenario {
 		add(&c15Case{name: "cancel-uncooperative", stack: st, script: []Out{{V: 1, Dur: 30}}, entry: entries[i%4], readers: readerSets[0], cancelAt: 15})
 		add(&c15Case{name: "cancel-uncooperative-err", stack: st, script: []Out{{Err: E1, Dur: 30}}, entry: entries[(i+1)%4], readers: readerSets[0], cancelAt: 15})
 	}
+	// Cancel, then a Timeout inside the retry / hedge policy expires before the (slow to react) attempt returns
+	for _, st := range [][]Spec{{retry, {Kind: KTimeout, Limit: 25}}, {hedge, {Kind: KTimeout, Limit: 25}}} {
+		add(&c15Case{name: "cancel-then-inner-timeout", stack: st, script: []Out{{Err: E1, Dur: 40}}, entry: "GetWithExecution", readers: readerSets[0], cancelAt: 10})
+		add(&c15Case{name: "cancel-then-inner-timeout-blocking", stack: st, script: []Out{{Err: E1, Block: true, Dur: 30}}, entry: "RunWithExecution", readers: readerSets[0], cancelAt: 10})
+	}
 	add(&c15Case{name: "retry-cancel-slow-return", stack: []Spec{retry}, script: []Out{{Err: E1, Block: true, Dur: 30}}, entry: "GetWithExecution", readers: readerSets[0], cancelAt: 15})
 	// one Executor value reused: after a cancelled execution, after a completed one, and overlapping one that is cancelled
 	okAfter := []Out{coop(10, E1, 0), coop(10, nil, 1)}
